@@ -202,7 +202,7 @@ func (c04Checker) Run(tp *Tapes, opt RunOpt) *Outcome {
 		nontrivial := false
 		curGlob := ""
 		renamed := map[int]bool{}
-		rename := func(c pongo2.Context, bad bool) {
+		rename := func(c pongo2.Context, bad bool, variant int) {
 			if bad {
 				delete(c, "lzmissing")
 				c["lz-missing"] = "nope.tpl"
@@ -210,11 +210,21 @@ func (c04Checker) Run(tp *Tapes, opt RunOpt) *Outcome {
 				delete(c, "lz-missing")
 				c["lzmissing"] = "nope.tpl"
 			}
+			// ... and overwrites elements of a long list in place (same slice, same length)
+			if l, ok := c["longs"].([]string); ok {
+				for _, i := range []int{7, 14, 21} {
+					if bad {
+						l[i] = "x-" + fmt.Sprint(i)
+					} else {
+						l[i] = longList(variant % 3)[i] // back to what it was
+					}
+				}
+			}
 		}
 		for i, e := range hist {
 			if e.Rename && !sp.Pool[e.Ctx].BadKey { // (never two invalid keys: which one is reported depends on map order)
 				renamed[e.Ctx] = !renamed[e.Ctx]
-				rename(sys.pool[e.Ctx], renamed[e.Ctx]) // same map object, same length
+				rename(sys.pool[e.Ctx], renamed[e.Ctx], sp.Pool[e.Ctx].Variant) // same map object, same length
 			}
 			if e.SetGlob != "" {
 				curGlob = e.SetGlob
@@ -234,7 +244,7 @@ func (c04Checker) Run(tp *Tapes, opt RunOpt) *Outcome {
 			}
 			rctx := ref.w.BuildCtx(sp.Pool[e.Ctx])
 			if renamed[e.Ctx] {
-				rename(rctx, true)
+				rename(rctx, true, sp.Pool[e.Ctx].Variant)
 			}
 			want := ref.exec(sp, i, e, rctx)
 			ref.w.Fired = map[string]int{}
